@@ -14,7 +14,7 @@ from lib import vf
 
 MANIFEST = {
   'text': "Coq theorems over a model of RuleJobNeeds (coq/Graph): for every needs graph and every iteration order of the node map, the reported unresolved pairs are exactly the (job, reference) pairs whose lower-cased reference is not a job id, reported at the referring job; if all references resolve, a cyclic-dependency diagnostic is produced iff the graph has a cycle (self-dependency included), never more than one, and the printed sequence is a closed walk along edges of the graph; acyclic graphs get none; the DFS, the cycle reconstruction and the printing loop terminate within the fuel the wrapper supplies and never dereference nil. Unbounded (all graphs, all orders). The model is tied to the code by running RuleJobNeeds through the exported visitor on every edge set over <= 4 jobs (both orders of the needs entries, both spellings), all needs lists up to a length bound with dangling/duplicate/case-variant/empty references, 5-job graphs and random graphs up to 40 jobs, and comparing its diagnostics with the model evaluated for every iteration order (vm_compute in Coq for <= 3 jobs and a sample, the extracted OCaml model for everything); the property itself is evaluated on the implementation by an independent reference (Kahn's algorithm, edge check of the printed path, exact unresolved set, watchdog for termination).",
-  'note': "Trusted: Coq kernel; the hand-written model (correspondence-checked, not proved equal to the Go code); ExtrOcamlBasic extraction and the OCaml driver for the bulk comparison (the in-Coq subset is independent of it); harness generators/dumper/oracle. Go's map iteration order is an input of the model; the correspondence accepts the implementation's outcome if some order reproduces it and the outcome class is the same for all orders. Not modelled: yaml.v3, parse.go (the model starts from the Job AST: id, position, needs entries); an empty needs entry is a parser error, not a reference.",
+  'note': "Trusted: Coq kernel; the hand-written model (correspondence-checked, not proved equal to the Go code); ExtrOcamlBasic extraction and the OCaml driver for the bulk comparison (the in-Coq subset is independent of it); harness generators/dumper/oracle. Go's map iteration order is an input of the model; the model sorts the start nodes of the cycle search by position like the implementation, its result is proved independent of the order (C18_order_independent) and the correspondence demands that every outcome of the implementation equals the model's for every order tried. Not modelled: yaml.v3, parse.go (the model starts from the Job AST: id, position, needs entries); an empty needs entry is a parser error, not a reference.",
   'technique': "machine-checked proof in Coq (DFS invariants: active nodes form the stack path, finished nodes are closed under successors and lie on no cycle) + vm_compute / extracted-model correspondence against the Go implementation, exhaustive for small graphs",
  }
 
@@ -72,12 +72,22 @@ def bulk_source(out, idx, shards):
         return None
     pos = 1
     n = int(line[pos]); pos += 1
-    y = 'on: push\njobs:\n'
+    jobs = []
     for _ in range(n):
-        jid = line[pos][1:]; k2 = int(line[pos + 3]); pos += 4
+        jid = line[pos][1:]; jl = int(line[pos + 1]); k2 = int(line[pos + 3]); pos += 4
         needs = []
         for _ in range(k2):
             needs.append(line[pos][1:]); pos += 3
+        jobs.append((jid, jl, needs))
+    if n > 1 and len(set(j[1] for j in jobs)) == 1:
+        # flow style: the whole jobs mapping on one line
+        parts = []
+        for jid, _, needs in jobs:
+            nd = 'needs: [%s], ' % ', '.join(json.dumps(x) for x in needs) if needs else ''
+            parts.append('%s: {%sruns-on: x, steps: [{run: echo}]}' % (jid, nd))
+        return 'on: push\njobs: {' + ', '.join(parts) + '}\n'
+    y = 'on: push\njobs:\n'
+    for jid, _, needs in jobs:
         y += '  %s:\n' % jid
         if needs:
             y += '    needs: [%s]\n' % ', '.join(json.dumps(x) for x in needs)
